@@ -1,10 +1,11 @@
 SPECIFICATION GenSpec
 CONSTANTS
   Dirs <- GenDirs
-  TypeEncs <- GenTypeEncs
+  TypeEncs <- GenTypeEncsQuick
   Maxes <- GenMaxesQuick
-  Methods <- GenMethods
+  Methods <- GenMethodsQuick
   Shardings <- GenShardings
+  Codes <- GenCodesQuick
   CfgSpace <- GenCfg
   MaxLen = 6
   AioForwardsMethod = TRUE
